@@ -243,6 +243,8 @@ def run(spec):
             if not ok:
                 continue
             nontrivial_cfg += 1
+            settings_before = (str(p.path), p.sys_path and list(p.sys_path), list(p.added_sys_path),
+                               p.smart_sys_path, p.load_unsafe_extensions)
             ok, comps = apimon.call(rec, 'complete', s.complete, 2, len('clash.only_'), witness=w)
             if ok:
                 roots = [x.rstrip('/') for x in sp_eff]
@@ -273,6 +275,36 @@ def run(spec):
                     rec.violate('c20:path_not_used_by_imports', 'import %s resolved=%s but its directory '
                                 '%s on effective path=%s' % (mod, found, root, on_path),
                                 effective=sp_eff, **w)
+            # ---- the Project object is shared between Scripts: queries must not change its settings
+            settings_after = (str(p.path), p.sys_path and list(p.sys_path), list(p.added_sys_path),
+                              p.smart_sys_path, p.load_unsafe_extensions)
+            rec.ev('c20:settings_invariant_checked')
+            if settings_after != settings_before:
+                rec.violate('c20:project_settings_mutated_by_query', 'answering queries changed the '
+                            'Project settings: %s -> %s' % (settings_before, settings_after), **w)
+            # a second Script of the same Project at another location sees a path composed from
+            # the configured settings only (contract), and the round trip after use still holds
+            loc2 = chain[1] / 'buf2.py'
+            ok, s2 = apimon.call(rec, 'Script', jedi.Script, 'import topmod\n', path=loc2, project=p, witness=w)
+            if ok:
+                apimon.call(rec, 'infer', s2.infer, 1, 8, witness=w)
+                ok, sp2 = apimon.call(rec, 'get_sys_path', s2._inference_state.get_sys_path, witness=w)
+                if ok and locn.startswith('depth') and locn not in ('depth0', 'depth1', 'depth2'):
+                    leak = [x for x in sp2 if x.startswith(str(chain[2]))]
+                    if leak:
+                        rec.violate('c20:ancestors_of_another_script_leaked', 'the sys path of a Script in '
+                                    '%s contains %s, ancestors of an earlier Script of the same Project'
+                                    % (loc2, leak), **w)
+            ok, _ = apimon.call(rec, 'Project.save', p.save, witness=w)
+            if ok:
+                ok, q = apimon.call(rec, 'Project.load', Project.load, p.path, witness=w)
+                if ok:
+                    rec.ev('c20:roundtrips_after_use')
+                    if list(map(str, q.added_sys_path)) != list(map(str, ad)) or \
+                            (q.sys_path is None) != (sp is None):
+                        rec.violate('c20:roundtrip_after_use', 'after queries, save+load gives '
+                                    'added_sys_path %r (configured %r)' % (q.added_sys_path, list(map(str, ad))), **w)
+            shutil.rmtree(str(pathlib.Path(p.path).absolute() / '.jedi'), ignore_errors=True)
     finally:
         os.chdir(old_cwd)
         _STATE['rec'] = None
